@@ -16,7 +16,7 @@ pub enum Plan {
 }
 
 pub const WIRE_PROPS: &[&str] = &[
-    "C01", "C02", "C03", "C05", "C06", "C07", "C08", "C11", "C12", "C13", "C17",
+    "C01", "C02", "C03", "C05", "C06", "C07", "C08", "C11", "C12", "C13", "C15", "C16", "C17",
 ];
 pub const DISK_PROPS: &[&str] = &["C09", "C10", "C18"];
 
@@ -127,6 +127,8 @@ pub fn rule_text(property: &str) -> &'static str {
         "C11" => "wire workload (writes, deletes, imports, sessions with grave goods / last wills opening and ending) on a real leader; 1-3 real followers join over the simulated TCP network at random points, some are killed and rejoin, some are partitioned for a while; after a marker write is visible on a follower its user keys, versions and registrations must equal the leader's; non-trivial: >=3 accepted changes; distinct = distinct trace hashes",
         "C12" => "as C11, then the leader is killed, the follower is stopped (shutdown path) or killed and a new instance is started on its directory with the role flags the orchestrator passes; non-trivial: the old leader held registrations; distinct = distinct trace hashes",
         "C20" => "1-3 real client-library instances (real connect, command loop, callbacks, SendBuffer, update) on the simulated Unix socket, 1-8 tasks per instance on cloned handles, each in its own key namespace with unique values, shared counter through update(), shared spub stream, set_later/publish_later bursts, all four unsubscribe variants; non-trivial: an instance with >=2 tasks and >=6 calls; distinct = distinct trace hashes",
+        "C15" => "server requiring authorization; sessions with missing, forged, expired and valid HS256 tokens whose read/write/delete grants are pattern sets; mixed request sequences inside and outside the grant; containment of a request pattern in the grants decided over a finite universe of keys; non-trivial: >=4 answered requests incl. >=1 error; distinct = distinct trace hashes",
+        "C16" => "one session holding a plain and an aggregated psubscribe (1/10/100/1000 ms) on the same pattern, writers producing bursts, repeated keys, set/delete alternation, idle gaps around the interval; non-trivial: a subscription with >=3 messages; distinct = distinct trace hashes",
         "C09" => "fault-free persistence cycles (periodic flush then kill, or clean shutdown) and directories laid out by the harness in schema v1/v2/v3 in both toggle states, damaged primary slots; non-trivial: the snapshot holds a CAS entry or a registration; distinct = distinct trace hashes",
         "C10" => "histories of 2-5 flushes with distinct states; for one flush of each history EVERY file-system operation (plus torn variants of *.tmp writes) is used as crash point, one simulated run each, followed by a restart; evaluations counts crash-point runs; non-trivial: crash landed inside a flush that had a completed predecessor; distinct = distinct trace hashes of histories",
         "C18" => "ReDB backend: 1-25 operations, node killed between two scheduler turns of the writer task (or stopped cleanly), database file copied, new instance; non-trivial: >=3 prefixes; distinct = distinct trace hashes",
